@@ -279,6 +279,11 @@ def run(ctx):
     cfgs = [dict(method=m, dtype="float64", dense=d) for m in BASES for d in (False, True)
             if not (ctx.quick and d and m in ("DOPRI45", "BackwardEuler", "RK1412Solver"))]
     if not ctx.quick:
+        # depth 4 from three representative set-ups, depth 3 from all others
+        for c in cfgs:
+            if not ((c["method"], c["dense"]) in (("RK45CKSolver", False), ("ABAs5o6HSolver", True), ("RadauIIA5", False))):
+                c["_depth"] = 3
+    if not ctx.quick:
         cfgs += [dict(method=m, dtype="longdouble", dense=False, _depth=3) for m in BASES[:4]]
     if not ctx.only or "bfs" in ctx.only:
         explore.bfs(ctx, cfgs, ops_fn, step, depth, section="bfs", horizon=600)
